@@ -61,6 +61,8 @@ def _check_chunk(jobs):
             if os.path.exists(p):
                 os.remove(p)
         try:
+            if c["kind"] == "exp" and c.get("lunit", 3600) != 3600:      # lead times in hours, possibly fractional
+                c = dict(c, leads=[l * c["lunit"] / 3600.0 for l in c["leads"]], oleads=[l * c["lunit"] / 3600.0 for l in c["oleads"]])
             if c["kind"] in ("acc", "exp"):
                 nloc = len(c["locs"])
                 inp = {"times": c["times"], "leads": c["leads"], "locs": c["locs"], "lat": [50 + k for k in range(nloc)],
